@@ -6,12 +6,20 @@ use std::convert::TryInto;
 
 use crate::feature::Rnum;
 
-#[derive(Eq,PartialEq,PartialOrd)]
+#[derive(Eq,PartialEq)]
 struct Index(u16);
 
 impl Ord for Index {
     fn cmp(&self, other: &Self) -> Ordering {
         self.0.cmp(&other.0).reverse()
+    }
+}
+
+// BinaryHeap compares through PartialOrd, which must agree with Ord for
+// the smallest index to be popped first.
+impl PartialOrd for Index {
+    fn partial_cmp(&self, other: &Self) -> Option<Ordering> {
+        Some(self.cmp(other))
     }
 }
 
@@ -47,16 +55,6 @@ impl JoinPool {
     }
 
     pub fn hit(&mut self, sid: usize, tid: usize) -> Rnum {
-        let next = match self.replaced.pop() {
-            Some(next) => next.0,
-            None => {
-                let next = self.counter;
-                self.counter += 1;
-
-                next
-            }
-        };
-
         match self.borrowed.entry(Pair(sid, tid)) {
             Entry::Occupied(occupied) => {
                 let result = occupied.remove();
@@ -66,6 +64,17 @@ impl JoinPool {
                 result.try_into().expect("rnum")
             },
             Entry::Vacant(vacant) => {
+                // a number is drawn only when a pair is opened
+                let next = match self.replaced.pop() {
+                    Some(next) => next.0,
+                    None => {
+                        let next = self.counter;
+                        self.counter += 1;
+
+                        next
+                    }
+                };
+
                 vacant.insert(next);
 
                 next.try_into().expect("rnum")
